@@ -35,6 +35,9 @@ pub fn executable_cells() -> Vec<Cell> {
         for ports in [1, 2, 3] {
             v.push(Cell { proto: Proto::Udp, strat, ports, unprivileged: false });
         }
+        // the builder accepts a multipath strategy for ICMP too (the command line does
+        // not); it has no meaning there and must change nothing
+        v.push(Cell { proto: Proto::Icmp, strat, ports: 0, unprivileged: false });
     }
     v
 }
@@ -135,7 +138,14 @@ fn gen_objects(t: &mut Tape) -> Vec<ExtObject> {
                     },
                 });
             }
-            v.push(mpls_object(&es));
+            let mut o = mpls_object(&es);
+            // malformed: one to three octets beyond the last whole label stack entry
+            if t.chance(40) {
+                for _ in 0..1 + t.draw(3) {
+                    o.payload.push(t.draw(256) as u8);
+                }
+            }
+            v.push(o);
         } else {
             let class = match t.pick(4) {
                 0 => 2,
@@ -444,10 +454,12 @@ pub fn gen_scenario(t: &mut Tape, p: &Profile) -> Scenario {
         max_flows: if p.small_max_flows {
             1 + t.draw(6) as usize
         } else {
-            match t.pick(3) {
+            // a limit of zero is accepted by the builder: no per-round flow is ever recorded
+            match t.weighted(&[32, 32, 32, 4]) {
                 0 => 64,
                 1 => 1 + t.draw(4) as usize,
-                _ => 1 + t.draw(64) as usize,
+                2 => 1 + t.draw(64) as usize,
+                _ => 0,
             }
         },
         explicit_source: t.chance(300),
@@ -553,7 +565,7 @@ pub fn gen_scenario(t: &mut Tape, p: &Profile) -> Scenario {
         scripted: Vec::new(),
         stall_pm: 0,
         stall_max_ns: 0,
-        addr_in_use_pm: 0, addr_in_use_from_round: 0,
+        addr_in_use_pm: 0, addr_in_use_from_round: 0, addr_in_use_udp: false,
         tick_base_ns: tick_base,
         tick_jitter_ns: tick_jitter,
     };
